@@ -66,6 +66,7 @@ static LU_stack_t stack;
 static int_t        no_expand;
 static int_t        ndim;
 static LU_space_t whichspace; /* 0 - system malloc'd; 1 - user provided */
+static int_t        tail_users; /* threads holding work arrays in the stack tail */
 
 /* Macros to manipulate stack */
 #define StackFull(x)         ( x + stack.used >= stack.size )
@@ -93,6 +94,7 @@ void pcgstrf_SetupSpace(void *work, int_t lwork)
         stack.top1 = 0;
         stack.top2 = lwork;
         stack.array = (void *) work;
+        tail_users = 0;
     }
 #if ( MACH==PTHREAD )
     pthread_mutex_init ( &stack.lock, NULL);
@@ -109,6 +111,31 @@ void pcgstrf_StackFree()
          pthread_mutex_destroy( &stack.lock );
 #endif
 } 
+
+/*
+ * The tail of the user stack holds the work arrays of all the threads.
+ * A thread registers before it allocates there, and the tail is released
+ * only when the last registered thread is done with its arrays.
+ */
+static void pcgstrf_TailUsers(int_t incr)
+{
+#if ( MACH==PTHREAD ) /* Use pthread ... */
+    pthread_mutex_lock( &stack.lock );
+#elif ( MACH==OPENMP ) /* Use openMP ... */
+#pragma omp critical ( STACK_LOCK )
+#endif
+    {
+	tail_users += incr;
+	if ( tail_users <= 0 ) {
+	    tail_users = 0;
+	    stack.used -= (stack.size - stack.top2);
+	    stack.top2 = stack.size;
+	}
+    }
+#if ( MACH==PTHREAD ) /* Use pthread ... */
+    pthread_mutex_unlock( &stack.lock );
+#endif
+}
 
 void *cuser_malloc(int_t bytes, int_t which_end)
 {
@@ -386,6 +413,7 @@ pcgstrf_MemInit(int_t n, int_t annz, superlumt_options_t *superlumt_options,
 	    whichspace = USER;
 	    stack.size = lwork;
 	    stack.top2 = lwork;
+	    tail_users = 0;
 	}
 	
 	lsub  = cexpanders[LSUB].mem  = Lstore->rowind;
@@ -445,12 +473,14 @@ pcgstrf_WorkInit(int_t n, int_t panel_size, int_t **iworkptr, complex **dworkptr
     dsize = (n * panel_size +
 	     NUM_TEMPV(n,panel_size,maxsuper,rowblk)) * sizeof(complex);
     
+    if ( whichspace == USER ) pcgstrf_TailUsers(1);
     if ( whichspace == SYSTEM ) 
 	*iworkptr = (int_t *) intCalloc(isize/sizeof(int_t));
     else
 	*iworkptr = (int_t *) cuser_malloc(isize, TAIL);
     if ( ! *iworkptr ) {
 	fprintf(stderr, "pcgstrf_WorkInit: malloc fails for local iworkptr[]\n");
+	if ( whichspace == USER ) pcgstrf_TailUsers(-1);
 	return (isize + n);
     }
 
@@ -482,6 +512,7 @@ pcgstrf_WorkInit(int_t n, int_t panel_size, int_t **iworkptr, complex **dworkptr
     } /* else */
     if ( ! *dworkptr ) {
 	printf("malloc fails for local dworkptr[] ... dsize " IFMT "\n", dsize);
+	if ( whichspace == USER ) pcgstrf_TailUsers(-1);
 	return (isize + dsize + n);
     }
 	
@@ -515,20 +546,7 @@ void pcgstrf_WorkFree(int_t *iwork, complex *dwork, GlobalLU_t *Glu)
 	SUPERLU_FREE (iwork);
 	SUPERLU_FREE (dwork);
     } else {
-#if ( MACH==PTHREAD ) /* Use pthread ... */
-        pthread_mutex_lock( &stack.lock );
-#elif ( MACH==OPENMP ) /* Use openMP ... */
-#pragma omp critical ( STACK_LOCK )
-#endif
-        {
-	    stack.used -= (stack.size - stack.top2);
-	    stack.top2 = stack.size;
-	    
-	    /*	pcgstrf_StackCompress(Glu);  */
-        }
-#if ( MACH==PTHREAD ) /* Use pthread ... */
-        pthread_mutex_unlock( &stack.lock );
-#endif
+	pcgstrf_TailUsers(-1);
     }
 }
 
